@@ -23,8 +23,15 @@ const (
 
 // small alphabets: the adjustment frequently names items present in the spec
 var (
-	annKeys     = []string{"k1", "k2", "k3", "k4", "io.kubernetes.cri/x", "nri.io/y"}
-	envKeys     = []string{"E1", "E2", "E3", "E4", "E5", "PATH"}
+	annKeys = []string{"k1", "k2", "k3", "k4", "io.kubernetes.cri/x", "nri.io/y"}
+	envKeys = []string{"E1", "E2", "E3", "E4", "E5", "PATH"}
+	// Keys that themselves begin with one or two dashes, next to their dash-less siblings
+	// (k1, nri.io/y / E1, PATH above). OCI annotation keys and variable names are arbitrary
+	// non-empty strings, so such items may be in the ORIGINAL spec; by the removal-marker
+	// protocol they can be removed ("-"+key) but never set through an adjustment (an entry
+	// "-k1" IS the removal of k1), so the generator only ever requests their removal.
+	annDashKeys = []string{"-k1", "--k1", "-", "-nri.io/y"}
+	envDashKeys = []string{"-E1", "--E1", "-", "-PATH"}
 	devPaths    = []string{"/dev/d0", "/dev/d1", "/dev/d2", "/dev/d3", "/dev/nvidia0", "/dev/fuse"}
 	rlimitTypes = []string{"RLIMIT_NOFILE", "RLIMIT_NPROC", "RLIMIT_CORE", "RLIMIT_AS", "RLIMIT_MEMLOCK"}
 	pageSizes   = []string{"2MB", "1GB", "64KB"}
@@ -168,9 +175,15 @@ type opEntry struct {
 	rm  bool
 }
 
-func genOps(t *rapid.T, label string, keys []string, max int) []opEntry {
+func genOps(t *rapid.T, label string, keys []string, max int, dashKeys ...string) []opEntry {
 	chosen := subset(t, label+"_keys", keys, 1, max)
 	var ents []opEntry
+	if len(dashKeys) > 0 && chance(t, label+"_dash", 2, 3) {
+		// removal (only) of items whose own key starts with a dash
+		for _, k := range subset(t, label+"_dash_keys", dashKeys, 1, 3) {
+			ents = append(ents, opEntry{k, true})
+		}
+	}
 	for _, k := range chosen {
 		switch pick(t, label+"_op", "set", "set", "remove", "remove", "both", "both", "both") {
 		case "set":
@@ -227,6 +240,9 @@ func genSpec(t *rapid.T, pool []string) rspec.Spec {
 		p.Env = []string{} // present but empty
 	}
 	envNames := append(subset(t, "env", envKeys, 0, len(envKeys)), subset(t, "env_other", []string{"HOME", "TERM", "LANG"}, 0, 3)...)
+	if chance(t, "env_dash", 2, 3) {
+		envNames = append(envNames, subset(t, "env_dash_names", envDashKeys, 2, len(envDashKeys))...)
+	}
 	if len(envNames) > 1 {
 		envNames = rapid.Permutation(envNames).Draw(t, "env_order")
 	}
@@ -246,6 +262,11 @@ func genSpec(t *rapid.T, pool []string) rspec.Spec {
 		s.Annotations = map[string]string{}
 		for _, k := range subset(t, "ann", annKeys, 1, len(annKeys)) {
 			s.Annotations[k] = pick(t, "annval", annVals...)
+		}
+		if chance(t, "ann_dash", 2, 3) {
+			for _, k := range subset(t, "ann_dash_keys", annDashKeys, 2, len(annDashKeys)) {
+				s.Annotations[k] = pick(t, "annval", annVals...)
+			}
 		}
 		if chance(t, "ann_other", 1, 2) {
 			s.Annotations["io.kubernetes.pod.name"] = "pod0"
@@ -382,7 +403,7 @@ func genAdj(t *rapid.T, pool []string) Adj {
 
 	if has("annotations") {
 		a.Annotations = map[string]string{}
-		for _, e := range genOps(t, "ann", annKeys, 4) {
+		for _, e := range genOps(t, "ann", annKeys, 4, annDashKeys...) {
 			if e.rm {
 				a.Annotations["-"+e.key] = ""
 			} else {
@@ -402,7 +423,7 @@ func genAdj(t *rapid.T, pool []string) Adj {
 	}
 	if has("env") {
 		keys := append(append([]string(nil), envKeys...), "NEW1", "NEW2")
-		for _, e := range genOps(t, "env", keys, 4) {
+		for _, e := range genOps(t, "env", keys, 4, envDashKeys...) {
 			if e.rm {
 				a.Env = append(a.Env, KV{K: "-" + e.key})
 			} else {
